@@ -1608,6 +1608,29 @@ def _match(start, end, text):
     return Adt('Match', None, (start, end, text))
 
 
+@contract(r'^Regex::(is_match|find)$')
+def regex_is_match(e, args, fr, m):
+    """is there a match? (the same match structure as captures_iter: the skeleton of a structured string decides for every instance)"""
+    rx = e.load(args[0])
+    pat = rx.fields[0].v
+    text = e.load(args[1])
+    if isinstance(text, SegStr):
+        skel, owner = text.skeleton()
+        mm = _re.search(pat, skel)
+    elif text.concrete:
+        mm = _re.search(pat, text.v)
+    else:
+        raise Unsupported('regex on an unstructured symbolic string')
+    if m.group(1) == 'is_match':
+        return mm is not None
+    if mm is None:
+        return NONE
+    if isinstance(text, SegStr):
+        return some(_match(Opaque('usize', 'match.start'), Opaque('usize', 'match.end'), simplify_seg(text.sub(mm.start(), mm.end(), owner))))
+    b_ = text.v.encode('utf-8')
+    return some(_match(Int(len(text.v[:mm.start()].encode('utf-8')), 'usize'), Int(len(text.v[:mm.end()].encode('utf-8')), 'usize'), Str(mm.group(0))))
+
+
 @contract(r'^Regex::captures_iter$')
 def regex_captures_iter(e, args, fr, m):
     rx = e.load(args[0])
